@@ -357,7 +357,7 @@ def matrix_rule(syn, prop="C16", crate=None):
             grp |= set(crate.owned_by(p0))
             for blk, t in crate.body(p0).calls():
                 for hb in crate.call_targets(crate.body(p0), t, ()):
-                    if kind in hb.path:
+                    if kind in hb.path or hb.path.startswith("attr::"):
                         grp |= set(crate.owned_by(hb.path)) | {hb.path}
         return any(fn_matches(t, r"iter::Iterator::(find|find_map|filter|any|all|position|next|try_for_each|for_each)$", r"Iterator>::next$")
                    for b in crate.bodies if b.path in grp for blk, t in b.calls() if not b.is_cleanup(blk))
